@@ -140,7 +140,6 @@ def main(argv=None):
     violations = []
     known_hits = []
     per_cfg = []
-    extra_violations = list(pre.get("violations", []))  # e.g. from static lemma counter-examples
     nrep = 0
     known = [k for k in load_known() if k.get("property") == a.prop]
     for r in results:
@@ -179,8 +178,19 @@ def main(argv=None):
                     violations.append((path, res))
             else:
                 inconclusive.append("counter-example of check %s (config %s) did not reproduce on the real code: %s" % (f["check"], r["cfg"]["name"], (res.get("detail") or "")[:300]))
-    for v in extra_violations:
-        violations.append((v["replay"], v))
+    for pcfg, f in pre.get("findings", []):
+        nrep += 1
+        path, res, err = _replay(modname, pcfg, f, 100 + nrep, a.prop)
+        if res is None:
+            inconclusive.append("replay crashed for %s: %s" % (path, err[-500:]))
+        elif res.get("violated"):
+            kn = [k for k in known if k.get("match") and k["match"] in (res.get("signature") or "")]
+            if kn:
+                known_hits.append((kn[0], res))
+            else:
+                violations.append((path, res))
+        else:
+            inconclusive.append("lemma counter-example did not reproduce on the real code: %s" % (res.get("detail") or "")[:300])
     wall = time.time() - t0
     # vacuity: at least one non-trivial solver-discharged check overall
     nf_ok = getattr(H, "NORMAL_FORM_DECIDES", False)  # property = identity of two symbolic terms: equal normal forms decide it
